@@ -19,6 +19,7 @@ serde_json = "1.0"
 EOF
 echo "" > build/depcrate/src/lib.rs
 cp /repo/Cargo.lock build/depcrate/Cargo.lock
+cp /repo/Cargo.lock build/depcrate/Cargo.lock.repo
 (cd build/depcrate && CARGO_NET_OFFLINE=true cargo +1.98.1-x86_64-unknown-linux-gnu build --offline --release 2>&1 | tail -3)
 ls build/depcrate/target/release/deps/libregex-*.rlib build/depcrate/target/release/deps/libaho_corasick-*.rlib >/dev/null
 echo "setup ok"
